@@ -156,6 +156,7 @@ func runC11(c *Ctx, r *Rec) {
 	checkWholeRemainder(c, r, "D1-whole-remainder", st)
 	if parser, _ := c.impl("cdcn", "ParserLike"); parser != nil {
 		checkFreshParseState(c, r, "D5-fresh-parse-state", parser)
+		checkReentrantMethodsKeepLocals(c, r, "D5-re-entrant-methods-keep-locals", parser)
 	}
 
 	// ---- D2
